@@ -268,11 +268,30 @@ def r5_r6_irrelevant(repo):
     return obs
 
 
+def r7_nested_concrete(repo):
+    f = repo.fn(TU + "._find_candidate_type_args")
+    cs = [c for c in calls_in(f.node) if call_name(c) == "_find_types"]
+    obs = []
+    for i, c in enumerate(cs):
+        co = kwarg(c, "concrete_only", 5)
+        inc = kwarg(c, "include_self", 3)
+        obs.append(Ob("C09-R7", "_find_candidate_type_args:_find_types#%d:concrete-and-including-self" % i, _w(f, c),
+                      co is not None and const_value(co) is True and inc is not None and const_value(inc) is True,
+                      "candidate type ARGUMENTS must be concrete (concrete_only=True maps generic classes through to_type); "
+                      "otherwise a raw generic class ends up inside the type arguments of a returned type, where the outer "
+                      "to_type does not look; found concrete_only=%s include_self=%s"
+                      % (src(co) if co is not None else "default False", src(inc) if inc is not None else "default")))
+    if len(cs) < 4:
+        raise AnalysisError("_find_candidate_type_args: %d nested searches" % len(cs), rule="C09-R7", anchor=f.qualname)
+    return obs
+
+
 def rules():
     return [
         RuleSpec("C09-R1", "_find_types: what enters the result / self / concreteness / modes", 9, r1_r2_r3_find_types),
         RuleSpec("C09-R4", "find_subtypes / find_supertypes wiring", 2, r4_wiring),
         RuleSpec("C09-R5", "find_irrelevant_type: top type, bound, pool, final relatedness test", 6, r5_r6_irrelevant),
+        RuleSpec("C09-R7", "nested searches for type arguments are concrete", 4, r7_nested_concrete),
     ]
 
 
@@ -355,6 +374,14 @@ def _v_same_args_returned(tree):
     f.body.remove(iff)
 
 
+def _v_nested_not_concrete(tree):
+    f = V.find_def(tree, "_find_candidate_type_args")
+    c = [n for n in ast.walk(f) if V.is_call_named(n, "_find_types")]
+    if not c:
+        raise V.SkipVariant("calls")
+    c[2].keywords = [k for k in c[2].keywords if k.arg != "concrete_only"]
+
+
 def _t_rename(tree):
     f = _ft(tree)
     V.rename_local(f, "selected_type", "cand")
@@ -375,6 +402,7 @@ def variants():
         V.Variant("top type no longer special", t, _v_any_not_none, {"C09-R5"}),
         V.Variant("unchanged arguments returned as irrelevant", t, _v_same_args_returned, {"C09-R5"}),
         V.Variant("final relatedness test removed (the repaired defect)", t, _v_no_final_test, {"C09-R6"}),
+        V.Variant("nested projection search returns raw generic classes", t, _v_nested_not_concrete, {"C09-R7"}),
         V.Variant("twin: rename locals in _find_types", t, _t_rename, None, twin=True),
         V.Variant("twin: whole tree reformatted by ast.unparse", None, None, None, twin=True),
     ]
